@@ -91,7 +91,108 @@ mut("c14-ok-helper", "C14", ED, ("// main collision function\nvoid mj_collision(
      "    if (nexclude && isExcluded(m, signature)) {\n      continue;\n    }\n"), None)
 mut("c14-ok-drop-prefilter", "C14", ED, "    // apply bitmask filtering at the bodyflex level\n    if (!canCollide2(m, bf1, bf2)) {\n      continue;\n    }\n", "", None)
 
-# ------------------------------------------------------------------------------------------------ C16 / C22: appended below
+# ------------------------------------------------------------------------------------------------ C22
+mut("c22-merge-lt", "C22", SH, "    if (cmp(src + i, src + j, context) <= 0) {", "    if (cmp(src + i, src + j, context) < 0) {", "rule=R-FINITE construct=contactSort:merge-tie")
+mut("c22-merge-swapped-gt", "C22", SH, "    if (cmp(src + i, src + j, context) <= 0) {", "    if (cmp(src + j, src + i, context) > 0) {", "rule=R-FINITE construct=bfsort:merge-tie")
+mut("c22-insert-ge", "C22", SH, "    for (; k >= start && cmp(arr + k, &tmp, context) > 0; k--) {", "    for (; k >= start && cmp(arr + k, &tmp, context) >= 0; k--) {",
+    "rule=R-FINITE construct=SAPsort:insertion-shift")
+mut("c22-insert-bound", "C22", SH, "    for (; k >= start && cmp(arr + k, &tmp, context) > 0; k--) {", "    for (; k > start && cmp(arr + k, &tmp, context) > 0; k--) {",
+    "rule=R-BOUNDS construct=geomSort:insertion-bound")
+mut("c22-insert-store", "C22", SH, "      arr[k + 1] = arr[k];                                                                         \\\n    }                                                                                              \\\n    arr[k + 1] = tmp;",
+    "      arr[k + 1] = arr[k];                                                                         \\\n    }                                                                                              \\\n    arr[k] = tmp;",
+    "rule=R-FINITE construct=ContactSelect:insertion-store")
+mut("c22-tail-left", "C22", SH, "memcpy(dest + k, src + i, (mid - i) * sizeof(type));", "memcpy(dest + k, src + i, (mid - start) * sizeof(type));", "rule=R-BOUNDS construct=contactSort:merge-tail-left")
+mut("c22-tail-right", "C22", SH, "memcpy(dest + k, src + j, (end - j) * sizeof(type));", "memcpy(dest + k, src + j, (end - mid) * sizeof(type));", "rule=R-BOUNDS construct=contactSort:merge-tail-right")
+mut("c22-tail-cursor", "C22", SH, "memcpy(dest + k, src + j, (end - j) * sizeof(type));", "memcpy(dest + i, src + j, (end - j) * sizeof(type));", "rule=R-BOUNDS construct=SAPsort:merge-tail-right")
+mut("c22-ok-tail-equiv", "C22", SH, "memcpy(dest + k, src + j, (end - j) * sizeof(type));", "memcpy(dest + j, src + j, (end - j) * sizeof(type));", None)   # k == j once the left run is exhausted
+mut("c22-run-clip", "C22", SH, "      int end = (start + _mjRUNSIZE < n) ? start + _mjRUNSIZE : n;", "      int end = start + _mjRUNSIZE;", "rule=R-BOUNDS construct=bfsort:run-bounds")
+mut("c22-merge-clip", "C22", SH, "        int end = (start + 2*len < n) ? start + 2*len : n;", "        int end = (start + 2*len <= n) ? start + 2*len : n - 1;", "rule=R-BOUNDS construct=contactSort:pass-bounds")
+mut("c22-mid", "C22", SH, "        int mid = start + len;                                                                     \\", "        int mid = start + len + 1;                                                                 \\", "rule=R-BOUNDS construct=contactSort:pass-bounds")
+mut("c22-guard", "C22", SH, "        if (mid < end) {", "        if (mid <= end) {", "rule=R-BOUNDS construct=contactSort:merge-guard")
+mut("c22-copyback", "C22", SH, "    if (src != arr) memcpy(arr, src, n * sizeof(type));", "    if (src == arr) memcpy(arr, src, n * sizeof(type));", "rule=R-COPYBACK construct=contactSort:copy-back")
+mut("c22-copyback-len", "C22", SH, "    if (src != arr) memcpy(arr, src, n * sizeof(type));", "    if (src != arr) memcpy(arr, src, n);", "rule=R-COPYBACK construct=SAPsort:copy-back")
+mut("c22-swap", "C22", SH, "      tmp = src; src = dest; dest = tmp;", "      tmp = src; dest = tmp;", "rule=R-COPYBACK construct=bfsort:buffer-swap")
+mut("c22-helper-ge", "C22", UM, "    while (j >= 0 && list[j] > x) {\n      list[j+1] = list[j];\n      j--;\n    }\n    list[j+1] = x;\n  }\n}\n\n\n// integer insertion sort",
+    "    while (j >= 0 && list[j] >= x) {\n      list[j+1] = list[j];\n      j--;\n    }\n    list[j+1] = x;\n  }\n}\n\n\n// integer insertion sort", "rule=R-FINITE construct=mju_insertionSort:insertion-shift")
+mut("c22-helper-bound", "C22", UM, "    int x = list[i];\n    int j = i-1;\n    while (j >= 0 && list[j] > x) {", "    int x = list[i];\n    int j = i-1;\n    while (j > 0 && list[j] > x) {",
+    "rule=R-BOUNDS construct=mju_insertionSortInt:insertion-bound")
+mut("c22-partial-scan", "C22", SH, "      if (cmp(arr + i, buf, context) < 0) {", "      if (cmp(arr + i, buf, context) > 0) {", "rule=R-FINITE construct=ContactSelect:heap-scan")
+mut("c22-partial-sift", "C22", SH, "    if (cmp(buf + swap, buf + child, context) < 0) swap = child;", "    if (cmp(buf + swap, buf + child, context) > 0) swap = child;", "rule=R-FINITE construct=ContactSelect:heap-sift#1")
+mut("c22-partial-guard", "C22", SH, "    if (k <= 0 || n < k) return;", "    if (k <= 0) return;", "rule=R-BOUNDS construct=ContactSelect:partial-guard")
+mut("c22-cmp-sensor", "C22", SE, "  if (a->id > b->id) return 1;\n", "", "rule=R-CMP construct=ContactInfoCompare:antisymmetry")
+mut("c22-cmp-render", "C22", RG, "  if (d1 < d2) {\n    return -1;\n  } else if (d1 == d2) {", "  if (d1 < d2) {\n    return 1;\n  } else if (d1 == d2) {", "rule=R-CMP construct=geomcmp:antisymmetry")
+# controls
+mut("c22-ok-not-gt", "C22", SH, "    if (cmp(src + i, src + j, context) <= 0) {", "    if (!(cmp(src + i, src + j, context) > 0)) {", None)
+mut("c22-ok-swapped-ge", "C22", SH, "    if (cmp(src + i, src + j, context) <= 0) {", "    if (cmp(src + j, src + i, context) >= 0) {", None)
+mut("c22-ok-insert-lt", "C22", SH, "    for (; k >= start && cmp(arr + k, &tmp, context) > 0; k--) {", "    for (; !(k < start) && 0 < cmp(arr + k, &tmp, context); k--) {", None)
+mut("c22-ok-clip-form", "C22", SH, "      int end = (start + _mjRUNSIZE < n) ? start + _mjRUNSIZE : n;", "      int end = (n > start + _mjRUNSIZE) ? start + _mjRUNSIZE : n;", None)
+mut("c22-ok-rename", "C22", SH, ("  int i = start, j = mid, k = start;", "  while (i < mid && j < end) {", "    if (cmp(src + i, src + j, context) <= 0) {", "       dest[k++] = src[i++];", "      dest[k++] = src[j++];",
+                                 "  if      (i < mid) memcpy(dest + k, src + i, (mid - i) * sizeof(type));", "  else if (j < end) memcpy(dest + k, src + j, (end - j) * sizeof(type));"),
+    ("  int lo = start, hi = mid, out = start;", "  while (lo < mid && hi < end) {", "    if (cmp(src + lo, src + hi, context) <= 0) {", "       dest[out++] = src[lo++];", "      dest[out++] = src[hi++];",
+     "  if      (lo < mid) memcpy(dest + out, src + lo, (mid - lo) * sizeof(type));", "  else if (hi < end) memcpy(dest + out, src + hi, (end - hi) * sizeof(type));"), None)
+mut("c22-ok-tail-order", "C22", SH, ("  if      (i < mid) memcpy(dest + k, src + i, (mid - i) * sizeof(type));", "  else if (j < end) memcpy(dest + k, src + j, (end - j) * sizeof(type));"),
+    ("  if      (j < end) memcpy(dest + k, src + j, (end - j) * sizeof(type));", "  else if (i < mid) memcpy(dest + k, src + i, (mid - i) * sizeof(type));"), None)
+
+# ------------------------------------------------------------------------------------------------ C16
+MR_UPD = "      // update if closer intersection found\n      if (newdist >= 0 && (newdist < dist || dist < 0)) {\n        dist = newdist;\n        if (geomid) *geomid = i;\n        if (normal) mju_copy3(normal, normal_local);\n      }\n    }\n  }\n\n  return dist;\n}\n\n\n// Initializes spherical"
+mut("c16-le", "C16", RY, MR_UPD, MR_UPD.replace("newdist < dist", "newdist <= dist"), "rule=R-FINITE construct=mj_ray:update")
+mut("c16-drop-nonneg", "C16", RY, MR_UPD, MR_UPD.replace("newdist >= 0 && ", ""), "rule=R-FINITE construct=mj_ray:update")
+mut("c16-drop-sentinel", "C16", RY, "            if (x < 0 || sol < x) {\n              x = sol;\n              face_axis = i;", "            if (sol < x) {\n              x = sol;\n              face_axis = i;",
+    "rule=R-FINITE construct=ray_box:update")
+mut("c16-sentinel-le", "C16", RY, "      // update\n      if (sol >= 0 && (x < 0 || sol < x)) {\n        x = sol;\n        if (normal) mju_copy3(normal, normal_local);\n        if (mark_active)",
+    "      // update\n      if (sol >= 0 && (x <= 0 || sol < x)) {\n        x = sol;\n        if (normal) mju_copy3(normal, normal_local);\n        if (mark_active)", "rule=R-FINITE construct=mju_rayTree:update")
+mut("c16-nan-unsafe", "C16", RY, MR_UPD, MR_UPD.replace("newdist >= 0 && (newdist < dist || dist < 0)", "!(newdist < 0) && (!(newdist >= dist) || dist < 0)"),
+    "rule=R-FINITE construct=mj_ray:update")
+mut("c16-hfield-side", "C16", RY, "    if (all[i] >= 0 && (all[i] < x || x < 0)) {", "    if (all[i] >= 0 && (all[i] <= x || x < 0)) {", "rule=R-FINITE construct=mj_rayHfield:update#3")
+mut("c16-no-geomid", "C16", RY, MR_UPD, MR_UPD.replace("        if (geomid) *geomid = i;\n", ""), "rule=R-PAIRWRITE construct=mj_ray:companions")
+mut("c16-no-normal", "C16", RY, "        dist = newdist;\n        if (geomid) *geomid = i;\n        if (normal) mju_copy3(normal, normal_local);\n      }\n    }\n  }\n\n  return dist;\n}\n\n\n// performs multiple",
+    "        dist = newdist;\n        if (geomid) *geomid = i;\n      }\n    }\n  }\n\n  return dist;\n}\n\n\n// performs multiple", "rule=R-PAIRWRITE construct=mju_singleRay:companions")
+mut("c16-geomid-alone", "C16", RY, MR_UPD, MR_UPD.replace("      // update if closer intersection found\n", "      if (geomid && newdist >= 0) *geomid = i;\n"), "rule=R-PAIRWRITE construct=mj_ray:geomid-writers")
+mut("c16-flex-vertid", "C16", RY, "        x = sol;\n        if (normal) mju_copy3(normal, normal_local);\n        if (vertid) *vertid = v;", "        x = sol;\n        if (normal) mju_copy3(normal, normal_local);",
+    "rule=R-PAIRWRITE construct=mj_rayFlex:companions")
+mut("c16-capsule-type", "C16", RY, "    if (x < 0 || sol < x) {\n      x = sol;\n      type = 0;\n    }\n  }\n\n  // top cap", "    if (x < 0 || sol < x) {\n      x = sol;\n    }\n  }\n\n  // top cap",
+    "rule=R-PAIRWRITE construct=ray_capsule:companions")
+mut("c16-init-geomid", "C16", RY, "  // clear result\n  dist = -1;\n  if (geomid) *geomid = -1;\n  if (normal) mju_zero3(normal);\n\n  // loop over geoms", "  // clear result\n  dist = -1;\n  if (normal) mju_zero3(normal);\n\n  // loop over geoms",
+    "rule=R-INIT construct=mj_ray:init")
+mut("c16-init-dist", "C16", RY, "  // clear result\n  dist = -1;\n  if (geomid) *geomid = -1;\n  if (normal) mju_zero3(normal);\n\n  // get ray spherical", "  // clear result\n  dist = 0;\n  if (geomid) *geomid = -1;\n  if (normal) mju_zero3(normal);\n\n  // get ray spherical",
+    "rule=R-INIT construct=mju_singleRay:init")
+mut("c16-init-skin", "C16", RY, "  // init solution\n  mjtNum x = -1;\n\n  // process all faces", "  // init solution\n  mjtNum x = 0;\n\n  // process all faces", "rule=R-INIT construct=mju_raySkin:init")
+mut("c16-dispatch-swap", "C16", RY, "      if (type == mjGEOM_MESH) {\n        newdist = mj_rayMesh(m, d, i, pnt, vec, p_normal);\n      } else if (type == mjGEOM_HFIELD) {\n        newdist = mj_rayHfield(m, d, i, pnt, vec, p_normal);\n      } else if (type == mjGEOM_SDF) {\n        newdist = mj_raySdf(m, d, i, pnt, vec, p_normal);\n      } else {\n        newdist = mju_rayGeom(d->geom_xpos+3*i, d->geom_xmat+9*i,\n                              m->geom_size+3*i",
+    "      if (type == mjGEOM_MESH) {\n        newdist = mj_rayMesh(m, d, i, pnt, vec, p_normal);\n      } else if (type == mjGEOM_HFIELD) {\n        newdist = mj_rayHfield(m, d, i, pnt, vec, p_normal);\n      } else {\n        newdist = mju_rayGeom(d->geom_xpos+3*i, d->geom_xmat+9*i,\n                              m->geom_size+3*i",
+    "rule=R-SIBLING construct=dispatch:mjGEOM_SDF")
+mut("c16-dispatch-args", "C16", RY, "        newdist = mju_rayGeom(d->geom_xpos+3*i, d->geom_xmat+9*i,\n                              m->geom_size+3*i, pnt, vec, type, p_normal);", "        newdist = mju_rayGeom(d->geom_xpos+3*i, d->geom_xmat+9*i,\n                              m->geom_size+3*b, pnt, vec, type, p_normal);",
+    "rule=R-SIBLING construct=dispatch:mjGEOM_BOX")
+mut("c16-drop-case", "C16", RY, "  case mjGEOM_ELLIPSOID:\n    return ray_ellipsoid(pos, mat, size, pnt, vec, normal);\n\n", "", "rule=R-SIBLING construct=dispatch:mjGEOM_ELLIPSOID")
+mut("c16-default", "C16", RY, "    mjERROR(\"unexpected geom type %d\", geomtype);\n    return -1;", "    mjERROR(\"unexpected geom type %d\", geomtype);\n    return 0;", "rule=R-SIBLING construct=mju_rayGeom:default")
+mut("c16-no-eliminate", "C16", RY, "      if (ray_eliminate[i]) {\n        continue;\n      }\n", "", "rule=R-SIBLING construct=mju_singleRay:eliminate-before-dispatch")
+mut("c16-eliminate-other", "C16", RY, "    if (!ray_eliminate(m, d, i, geomgroup, flg_static, bodyexclude)) {\n      int type = m->geom_type[i];", "    if (!ray_eliminate(m, d, 0, geomgroup, flg_static, bodyexclude)) {\n      int type = m->geom_type[i];",
+    "rule=R-SIBLING construct=mj_ray:eliminate-before-dispatch")
+mut("c16-filter-binding", "C16", RY, "  mju_multiRayPrepare(m, d, pnt, NULL, geomgroup, flg_static, bodyexclude,", "  mju_multiRayPrepare(m, d, pnt, NULL, geomgroup, flg_static, nray,", "rule=R-SIBLING construct=mj_multiRay:filter-binding")
+mut("c16-flag-array", "C16", RY, "    geom_eliminate[geomid] = ray_eliminate(m, d, geomid, geomgroup, flg_static, bodyexclude);", "    geom_eliminate[geomid] = ray_eliminate(m, d, 0, geomgroup, flg_static, bodyexclude);",
+    "rule=R-SIBLING construct=mj_multiRay:flag-array")
+mut("c16-multiray-nodist", "C16", RY, "    if (mju_dot3(vec+3*i, vec+3*i) < mjMINVAL) {\n      dist[i] = -1;\n    } else {", "    if (mju_dot3(vec+3*i, vec+3*i) < mjMINVAL) {\n      if (geomid) geomid[i] = -1;\n    } else {",
+    "rule=R-MUSTWRITE construct=mj_multiRay:dist")
+mut("c16-multiray-range", "C16", RY, "  for (int i=0; i < nray; i++) {\n    if (mju_dot3(vec+3*i, vec+3*i) < mjMINVAL) {", "  for (int i=1; i < nray; i++) {\n    if (mju_dot3(vec+3*i, vec+3*i) < mjMINVAL) {", "rule=R-MUSTWRITE construct=mj_multiRay:ray-range")
+# controls / fixes
+mut("c16-fix-multiray", "C16", RY, "    if (mju_dot3(vec+3*i, vec+3*i) < mjMINVAL) {\n      dist[i] = -1;\n    } else {", "    if (mju_dot3(vec+3*i, vec+3*i) < mjMINVAL) {\n      dist[i] = -1;\n      if (geomid) geomid[i] = -1;\n      if (normal) mju_zero3(normal+3*i);\n    } else {",
+    "FIXES rule=R-MUSTWRITE construct=mj_multiRay:geomid")
+mut("c16-ok-rewrite", "C16", RY, MR_UPD, MR_UPD.replace("newdist >= 0 && (newdist < dist || dist < 0)", "(dist < 0 || !(newdist >= dist)) && newdist >= 0"), None)
+mut("c16-ok-nested", "C16", RY, MR_UPD, MR_UPD.replace("      if (newdist >= 0 && (newdist < dist || dist < 0)) {\n        dist = newdist;\n        if (geomid) *geomid = i;\n        if (normal) mju_copy3(normal, normal_local);\n      }\n",
+                                                        "      if (newdist >= 0) {\n        if (dist < 0 || newdist < dist) {\n          if (normal) mju_copy3(normal, normal_local);\n          if (geomid) *geomid = i;\n          dist = newdist;\n        }\n      }\n"), None)
+mut("c16-ok-helper", "C16", RY, ("// intersect ray (pnt+x*vec, x>=0) with visible geoms, except geoms on bodyexclude\n", MR_UPD),
+    ("static int closerHit(mjtNum cand, mjtNum best) {\n  return cand >= 0 && (cand < best || best < 0);\n}\n\n// intersect ray (pnt+x*vec, x>=0) with visible geoms, except geoms on bodyexclude\n",
+     MR_UPD.replace("if (newdist >= 0 && (newdist < dist || dist < 0)) {", "if (closerHit(newdist, dist)) {")), None)
+mut("c16-helper-le", "C16", RY, ("// intersect ray (pnt+x*vec, x>=0) with visible geoms, except geoms on bodyexclude\n", MR_UPD),
+    ("static int closerHit(mjtNum cand, mjtNum best) {\n  return cand >= 0 && (cand <= best || best < 0);\n}\n\n// intersect ray (pnt+x*vec, x>=0) with visible geoms, except geoms on bodyexclude\n",
+     MR_UPD.replace("if (newdist >= 0 && (newdist < dist || dist < 0)) {", "if (closerHit(newdist, dist)) {")), "rule=R-FINITE construct=mj_ray:update")
+mut("c16-ok-rename", "C16", RY, ("newdist", "p_normal", "sol"), ("cand", "nrm_out", "hit"), None)
+mut("c16-ok-switch-order", "C16", RY, "  case mjGEOM_PLANE:\n    return ray_plane(pos, mat, size, pnt, vec, normal);\n\n  case mjGEOM_SPHERE:\n    return ray_sphere(pos, mat, size[0] * size[0], pnt, vec, normal);\n",
+    "  case mjGEOM_SPHERE:\n    return ray_sphere(pos, mat, size[0] * size[0], pnt, vec, normal);\n\n  case mjGEOM_PLANE:\n    return ray_plane(pos, mat, size, pnt, vec, normal);\n", None)
+mut("c14-fix-plane-sdf", "C14", ED, ("      if (m->geom_type[i] == mjGEOM_PLANE) {\n        mj_collidePlaneFlex(m, d, i, f2);", "      if (m->geom_type[i] == mjGEOM_SDF) {\n        mj_collideSdfFlex(m, d, i, f2);"),
+    ("      if (m->geom_type[i] == mjGEOM_PLANE &&\n          !filterBitmask(m->geom_contype[i], m->geom_conaffinity[i], m->flex_contype[f2], m->flex_conaffinity[f2])) {\n        mj_collidePlaneFlex(m, d, i, f2);",
+     "      if (m->geom_type[i] == mjGEOM_SDF &&\n          !filterBitmask(m->geom_contype[i], m->geom_conaffinity[i], m->flex_contype[f2], m->flex_conaffinity[f2])) {\n        mj_collideSdfFlex(m, d, i, f2);"),
+    "FIXES rule=R-MUSTPASS construct=mj_collideTree:mj_collidePlaneFlex")
+
 
 
 def _apply(root, m):
@@ -148,7 +249,12 @@ def main(argv):
             finally:
                 open(p, "w").write(src)
             new = reported(out) - base[m["pid"]]
-            if m["expect"] is None:
+            if m["expect"] is not None and m["expect"].startswith("FIXES "):
+                want = _LINE.findall(m["expect"][6:] + ": ")
+                ok = code != 2 and not new and bool(want) and want[0] in base[m["pid"]] and want[0] not in reported(out)
+                print(f"{'fixed   ' if ok else 'FAIL    '} {m['id']} -> {m['expect']}" + ("" if ok else f": exit={code} new={sorted(new)} "
+                      f"still={sorted(reported(out))}\n{out[-1500:]}"))
+            elif m["expect"] is None:
                 ok = code != 2 and not new and not (base[m["pid"]] - reported(out))
                 print(f"{'silent  ' if ok else 'FAIL    '} {m['id']}" + ("" if ok else f": exit={code} new={sorted(new)}\n{out[-1500:]}"))
             else:
